@@ -1,18 +1,74 @@
 (* Exactness of the legacy safe-arithmetic templates (ArithModel.v) w.r.t. ArithSpec.arith_spec,
-   for every numeric type, all operand values. *)
+   for every numeric type, all operand values, every operand shape (IR variable or literal, incl. the
+   literal-dependent "evil value" branches) and both outcomes of every cache_when_complex decision. *)
 From Coq Require Import ZArith Bool List Lia ZifyBool String.
 From Verif Require Import Base.Word256 C03.LIR C03.ArithSpec C03.WordArith C03.TypeLemmas C03.ArithModel.
 Import ListNotations.
 Open Scope Z_scope.
+Open Scope list_scope.
 Ltac Zify.zify_post_hook ::= Z.to_euclidean_division_equations.
 
-Ltac lstep := cbn [leval lookup env2 String.eqb Ascii.eqb Bool.eqb ev1 ev2 ev3 vx vy m_nonzero_y m_min256
-                   nbytes nsigned ndec m_DIV andb orb].
+Ltac lstep := cbn [leval lookup env2 String.eqb Ascii.eqb Bool.eqb ev1 ev2 ev3 vx vy m_nonzero m_min256 m_clamp_of
+                   nbytes nsigned ndec m_DIV andb orb is_lit].
 
-Lemma clamp_var_eval e v k s d w : 1 <= k <= 31 -> lookup e v = Some w -> uword w ->
-  leval e (m_clamp_var k s v) = if in_rangeb (Build_nty k s d) (sval s w) then Val w else Revert.
+(* ---- operands: non-complex terms whose value is stable under the template's own bindings ---- *)
+Definition tmpn (n : string) : Prop := n = "ans"%string \/ n = "val"%string \/ n = "res"%string.
+Definition tmp_env (pre : env) : Prop := Forall (fun p => tmpn (fst p)) pre.
+Definition opd (e : env) (t : lir) (v : Z) : Prop :=
+  (forall pre, tmp_env pre -> leval (pre ++ e) t = Val (wrap v)) /\ (forall l, t = LInt l -> l = v).
+
+Lemma opd_here e t v : opd e t v -> leval e t = Val (wrap v).
+Proof. intros [H _]. exact (H [] (Forall_nil _)). Qed.
+Lemma opd_ext e t v n w : opd e t v -> tmpn n -> opd ((n, w) :: e) t v.
 Proof.
-  intros Hk Hl Hw. unfold m_clamp_var. destruct s; lstep; rewrite Hl; lstep.
+  intros [H L] Hn. split; [|exact L]. intros pre Hp.
+  replace (pre ++ (n, w) :: e) with ((pre ++ [(n, w)]) ++ e) by (rewrite <- app_assoc; reflexivity).
+  apply H. apply Forall_app. split; [exact Hp | constructor; [exact Hn | constructor]].
+Qed.
+Lemma opd_at e e' n w t v : opd e t v -> tmpn n -> (e' = e \/ e' = (n, w) :: e) -> leval e' t = Val (wrap v).
+Proof. intros H Hn [->| ->]; [apply opd_here; exact H | apply opd_here; apply opd_ext; assumption]. Qed.
+Lemma opd_lit e v : opd e (LInt v) v.
+Proof. split; [intros; reflexivity | intros l E; inversion E; reflexivity]. Qed.
+Lemma opd_islit e t v l : opd e t v -> is_lit t = Some l -> l = v.
+Proof. intros [_ L] E. destruct t; try discriminate E. inversion E; subst. apply L. reflexivity. Qed.
+Lemma lookup_tmp pre e s : tmp_env pre -> s = "x"%string \/ s = "y"%string -> lookup (pre ++ e) s = lookup e s.
+Proof.
+  induction pre as [|[n w] pre IH]; intros Hp Hs; [reflexivity|]. inversion Hp; subst. cbn [app lookup].
+  replace (String.eqb n s) with false; [apply IH; assumption|].
+  symmetry. apply String.eqb_neq. cbn in H1. unfold tmpn in H1. intros ->.
+  destruct Hs as [-> | ->]; destruct H1 as [C|[C|C]]; discriminate C.
+Qed.
+Lemma opd_x x y : opd (env2 x y) vx x.
+Proof.
+  split; [|intros l E; discriminate E]. intros pre Hp. unfold vx. cbn [leval].
+  rewrite lookup_tmp by (try assumption; left; reflexivity). reflexivity.
+Qed.
+Lemma opd_y x y : opd (env2 x y) vy y.
+Proof.
+  split; [|intros l E; discriminate E]. intros pre Hp. unfold vy. cbn [leval].
+  rewrite lookup_tmp by (try assumption; right; reflexivity). reflexivity.
+Qed.
+
+Lemma tmpn_ans : tmpn "ans". Proof. left; reflexivity. Qed.
+Lemma tmpn_val : tmpn "val". Proof. right; left; reflexivity. Qed.
+Lemma tmpn_res : tmpn "res". Proof. right; right; reflexivity. Qed.
+
+(* ---- cache_when_complex: inlined or bound by `with`, the body sees a term evaluating to the cached word ---- *)
+Lemma cache_eval inl n e arg body w out :
+  leval e arg = Val w ->
+  (forall e' er, leval e' er = Val w -> (e' = e \/ e' = (n, w) :: e) -> leval e' (body er) = out) ->
+  leval e (m_cache inl n arg body) = out.
+Proof.
+  intros Ha Hb. unfold m_cache. destruct inl.
+  - apply Hb; [exact Ha | left; reflexivity].
+  - cbn [leval]. rewrite Ha. apply Hb; [|right; reflexivity].
+    cbn [leval lookup]. rewrite String.eqb_refl. reflexivity.
+Qed.
+
+Lemma clamp_of_eval e er k s d w : 1 <= k <= 31 -> leval e er = Val w -> uword w ->
+  leval e (m_clamp_of k s er) = if in_rangeb (Build_nty k s d) (sval s w) then Val w else Revert.
+Proof.
+  intros Hk Hl Hw. unfold m_clamp_of. destruct s; cbn [leval]; rewrite !Hl; cbn [leval ev1 ev2].
   - pose proof (sclamp_iff k w Hk Hw) as I. rewrite <- (in_rangeb_iff (Build_nty k true false)) in I.
     cbn [sval]. change (in_rangeb (Build_nty k true d)) with (in_rangeb (Build_nty k true false)).
     unfold w_eq, b2z. destruct (w =? w_signextend (wrap (k - 1)) w) eqn:E;
@@ -22,18 +78,26 @@ Proof.
     unfold w_iszero, b2z. destruct (w_shr (wrap (8 * k)) w =? 0) eqn:E;
     destruct (in_rangeb (Build_nty k false false) w); cbn; try reflexivity; lia.
 Qed.
+Lemma clamp_var_eval e v k s d w : 1 <= k <= 31 -> lookup e v = Some w -> uword w ->
+  leval e (m_clamp_var k s v) = if in_rangeb (Build_nty k s d) (sval s w) then Val w else Revert.
+Proof. intros Hk Hl Hw. apply clamp_of_eval; [exact Hk | cbn [leval]; rewrite Hl; reflexivity | exact Hw]. Qed.
 
 Lemma chk_enc T r : 1 <= nbytes T <= 32 -> fits256 (nsigned T) r ->
   (if in_rangeb T (sval (nsigned T) (wrap r)) then Val (wrap r) else Revert) = enc_out (chk T r).
 Proof. intros Hk Hf. rewrite sval_wrap by exact Hf. unfold chk. destruct (in_rangeb T r); reflexivity. Qed.
 
-(* clamp of a complex expression that evaluates to the word of r *)
-Lemma int_clamp_eval e arg k s d r : 1 <= k <= 31 -> leval e arg = Val (wrap r) -> fits256 s r ->
-  leval e (m_int_clamp k s arg) = enc_out (chk (Build_nty k s d) r).
+(* clamp of a term that evaluates to the word of r *)
+Lemma clamp_of_exact e er k s d r : 1 <= k <= 31 -> leval e er = Val (wrap r) -> fits256 s r ->
+  leval e (m_clamp_of k s er) = enc_out (chk (Build_nty k s d) r).
 Proof.
-  intros Hk Ha Hf. unfold m_int_clamp. cbn [leval]. rewrite Ha.
-  rewrite (clamp_var_eval _ _ k s d (wrap r)); [| exact Hk | cbn; reflexivity | apply wrap_range].
+  intros Hk Ha Hf. rewrite (clamp_of_eval _ _ k s d (wrap r)); [| exact Hk | exact Ha | apply wrap_range].
   apply (chk_enc (Build_nty k s d)); cbn; [lia | exact Hf].
+Qed.
+Lemma int_clamp_eval e arg k s d r inl : 1 <= k <= 31 -> leval e arg = Val (wrap r) -> fits256 s r ->
+  leval e (m_int_clamp k s arg inl) = enc_out (chk (Build_nty k s d) r).
+Proof.
+  intros Hk Ha Hf. unfold m_int_clamp. apply (cache_eval _ _ _ _ _ (wrap r)); [exact Ha|].
+  intros e' er Her _. apply clamp_of_exact; assumption.
 Qed.
 
 Lemma enc_out_chk T r : enc_out (chk T r) = if in_rangeb T r then Val (wrap r) else Revert.
@@ -47,18 +111,36 @@ Lemma range_bounds k s d v : 1 <= k -> in_range (Build_nty k s d) v ->
   if s then - Hb k <= v <= Hb k - 1 else 0 <= v <= 2 * Hb k - 1.
 Proof. intros Hk H. unfold in_range in H. destruct s; [rewrite ty_lo_s, ty_hi_s in H | rewrite ty_lo_u, ty_hi_u in H by lia]; exact H. Qed.
 
-Theorem safe_add_exact T x y : ty_ok T -> in_range T x -> in_range T y ->
-  leval (env2 x y) (m_safe_add T) = enc_out (arith_spec T AAdd x y).
+Lemma int_clamp_eval_uneg e arg k d r inl : 1 <= k <= 31 -> leval e arg = Val (wrap r) -> - HALF <= r < 0 ->
+  leval e (m_int_clamp k false arg inl) = enc_out (chk (Build_nty k false d) r).
 Proof.
-  destruct T as [k s d]. intros [Hk _] Hx Hy. cbn [nbytes] in Hk.
+  intros Hk Ha Hr. unfold m_int_clamp. apply (cache_eval _ _ _ _ _ (wrap r)); [exact Ha|].
+  intros e' er Her _.
+  rewrite (clamp_of_eval _ _ k false d (wrap r)); [| exact Hk | exact Her | apply wrap_range].
+  cbn [sval]. range_facts k. rewrite wrap_neg by lia.
+  unfold chk, in_rangeb. rewrite ty_lo_u, ty_hi_u by lia. bsolve.
+Qed.
+
+(* evaluate a binary op on two operands *)
+Lemma l2_eval e o ea eb x y : leval e ea = Val x -> leval e eb = Val y -> leval e (L2 o ea eb) = Val (ev2 o x y).
+Proof. intros Ha Hb. cbn [leval]. rewrite Hb, Ha. reflexivity. Qed.
+
+Theorem safe_add_exact T e ea eb inl x y : ty_ok T -> in_range T x -> in_range T y -> opd e ea x -> opd e eb y ->
+  leval e (m_safe_add T ea eb inl) = enc_out (arith_spec T AAdd x y).
+Proof.
+  destruct T as [k s d]. intros [Hk _] Hx Hy Oa Ob. cbn [nbytes] in Hk.
   pose proof (range_bounds k s d x ltac:(lia) Hx) as Bx. pose proof (range_bounds k s d y ltac:(lia) Hy) as By.
+  assert (Harg : leval e (L2 OAdd ea eb) = Val (wrap (x + y))).
+  { rewrite (l2_eval _ _ _ _ _ _ (opd_here _ _ _ Oa) (opd_here _ _ _ Ob)). cbn [ev2]. f_equal. apply w_add_wrap. }
   unfold m_safe_add, m_safe_addsub. cbn [nbytes nsigned arith_spec].
   destruct (k <? 32) eqn:E.
-  - apply int_clamp_eval; [lia | lstep; unfold enc; f_equal; apply w_add_wrap |].
+  - apply int_clamp_eval; [lia | exact Harg |].
     range_facts k. destruct s; cbn [fits256]; unfold sword, uword, MINS, MAXS; lia.
   - assert (k = 32) by lia. subst k. rewrite Hb_32 in *.
     pose proof W_val; pose proof HALF_val.
-    destruct s; lstep; unfold enc; rewrite w_add_wrap.
+    apply (cache_eval _ _ _ _ _ _ _ Harg). intros e' er Her He'.
+    pose proof (opd_at _ _ _ _ _ _ Oa tmpn_ans He') as Ha. pose proof (opd_at _ _ _ _ _ _ Ob tmpn_ans He') as Hb'.
+    destruct s; cbn [leval]; rewrite ?Her, ?Ha, ?Hb'; cbn [leval ev1 ev2].
     + (* int256 *)
       assert (Sx : sword x) by (unfold sword, MINS, MAXS; lia).
       assert (Sy : sword y) by (unfold sword, MINS, MAXS; lia).
@@ -73,32 +155,27 @@ Proof.
       destruct (wrap_cases (x + y) ltac:(lia)) as [[C ->]|[[C ->]|[C ->]]]; bsolve.
 Qed.
 
-Lemma int_clamp_eval_uneg e arg k d r : 1 <= k <= 31 -> leval e arg = Val (wrap r) -> - HALF <= r < 0 ->
-  leval e (m_int_clamp k false arg) = enc_out (chk (Build_nty k false d) r).
+Theorem safe_sub_exact T e ea eb inl x y : ty_ok T -> in_range T x -> in_range T y -> opd e ea x -> opd e eb y ->
+  leval e (m_safe_sub T ea eb inl) = enc_out (arith_spec T ASub x y).
 Proof.
-  intros Hk Ha Hr. unfold m_int_clamp. cbn [leval]. rewrite Ha.
-  rewrite (clamp_var_eval _ _ k false d (wrap r)); [| exact Hk | cbn; reflexivity | apply wrap_range].
-  cbn [sval]. range_facts k. rewrite wrap_neg by lia.
-  unfold chk, in_rangeb. rewrite ty_lo_u, ty_hi_u by lia. bsolve.
-Qed.
-
-Theorem safe_sub_exact T x y : ty_ok T -> in_range T x -> in_range T y ->
-  leval (env2 x y) (m_safe_sub T) = enc_out (arith_spec T ASub x y).
-Proof.
-  destruct T as [k s d]. intros [Hk _] Hx Hy. cbn [nbytes] in Hk.
+  destruct T as [k s d]. intros [Hk _] Hx Hy Oa Ob. cbn [nbytes] in Hk.
   pose proof (range_bounds k s d x ltac:(lia) Hx) as Bx. pose proof (range_bounds k s d y ltac:(lia) Hy) as By.
+  assert (Harg : leval e (L2 OSub ea eb) = Val (wrap (x - y))).
+  { rewrite (l2_eval _ _ _ _ _ _ (opd_here _ _ _ Oa) (opd_here _ _ _ Ob)). cbn [ev2]. f_equal. apply w_sub_wrap. }
   unfold m_safe_sub, m_safe_addsub. cbn [nbytes nsigned arith_spec].
   destruct (k <? 32) eqn:E.
   - range_facts k. destruct s.
-    + apply int_clamp_eval; [lia | lstep; unfold enc; f_equal; apply w_sub_wrap |].
+    + apply int_clamp_eval; [lia | exact Harg |].
       cbn [fits256]; unfold sword, MINS, MAXS; lia.
     + destruct (Z_lt_dec (x - y) 0).
-      * apply int_clamp_eval_uneg; [lia | lstep; unfold enc; f_equal; apply w_sub_wrap | lia].
-      * apply int_clamp_eval; [lia | lstep; unfold enc; f_equal; apply w_sub_wrap |].
+      * apply int_clamp_eval_uneg; [lia | exact Harg | lia].
+      * apply int_clamp_eval; [lia | exact Harg |].
         cbn [fits256]; unfold uword; lia.
   - assert (k = 32) by lia. subst k. rewrite Hb_32 in *.
     pose proof W_val; pose proof HALF_val.
-    destruct s; lstep; unfold enc; rewrite w_sub_wrap.
+    apply (cache_eval _ _ _ _ _ _ _ Harg). intros e' er Her He'.
+    pose proof (opd_at _ _ _ _ _ _ Oa tmpn_ans He') as Ha. pose proof (opd_at _ _ _ _ _ _ Ob tmpn_ans He') as Hb'.
+    destruct s; cbn [leval]; rewrite ?Her, ?Ha, ?Hb'; cbn [leval ev1 ev2].
     + assert (Sx : sword x) by (unfold sword, MINS, MAXS; lia).
       assert (Sy : sword y) by (unfold sword, MINS, MAXS; lia).
       unfold w_slt, w_sgt, w_eq. rewrite (ts_wrap x Sx), (ts_wrap y Sy).
@@ -112,29 +189,31 @@ Proof.
 Qed.
 
 (* evaluation of  (seq (assert (gt y 0)) y) *)
-Lemma nonzero_y_eval x y : - W < y < W ->
-  leval (env2 x y) m_nonzero_y = if y =? 0 then Revert else Val (wrap y).
+Lemma nonzero_eval e eb y : - W < y < W -> leval e eb = Val (wrap y) ->
+  leval e (m_nonzero eb) = if y =? 0 then Revert else Val (wrap y).
 Proof.
-  intros H. lstep. unfold enc. rewrite gt0_val by exact H. rewrite b2z_eq0, negb_involutive.
+  intros H Hb. unfold m_nonzero. cbn [leval]. rewrite !Hb. cbn [leval ev2].
+  rewrite gt0_val by exact H. rewrite b2z_eq0, negb_involutive.
   destruct (y =? 0); reflexivity.
 Qed.
 
-Theorem safe_mod_exact T x y : ty_ok T -> in_range T x -> in_range T y ->
-  leval (env2 x y) (m_safe_mod T) = enc_out (arith_spec T AMod x y).
+Theorem safe_mod_exact T e ea eb x y : ty_ok T -> in_range T x -> in_range T y -> opd e ea x -> opd e eb y ->
+  leval e (m_safe_mod T ea eb) = enc_out (arith_spec T AMod x y).
 Proof.
-  destruct T as [k s d]. intros [Hk _] Hx Hy. cbn [nbytes] in Hk.
+  destruct T as [k s d]. intros [Hk _] Hx Hy Oa Ob. cbn [nbytes] in Hk.
   pose proof (in_range_fits k s d x Hk Hx) as Fx. pose proof (in_range_fits k s d y Hk Hy) as Fy.
   pose proof (range_bounds k s d x ltac:(lia) Hx) as Bx.
   pose proof W_val; pose proof HALF_val.
   unfold m_safe_mod. cbn [nsigned arith_spec]. cbn [leval].
-  rewrite nonzero_y_eval by (destruct s; cbn in Fy; unfold sword, uword, MINS, MAXS in Fy; lia).
+  rewrite (nonzero_eval _ _ y) by (try apply opd_here; try assumption; destruct s; cbn in Fy; unfold sword, uword, MINS, MAXS in Fy; lia).
   destruct (Z.eqb_spec y 0) as [->|N]; [reflexivity|].
+  rewrite (opd_here _ _ _ Oa).
   pose proof (rem_abs_le x y N) as [R1 [R2 R3]].
   assert (IR : in_rangeb (Build_nty k s d) (Z.rem x y) = true).
   { apply in_rangeb_iff. unfold in_range. destruct s;
     [rewrite ty_lo_s, ty_hi_s | rewrite ty_lo_u, ty_hi_u by lia]; lia. }
   unfold chk. rewrite IR. cbn [enc_out].
-  destruct s; lstep; unfold enc; f_equal.
+  destruct s; cbn [ev2]; unfold enc; f_equal.
   - apply smod_val; assumption.
   - cbn in Fx, Fy. unfold uword in *. rewrite (wrap_small x), (wrap_small y) by lia.
     rewrite umod_val by lia. symmetry. apply wrap_small. lia.
@@ -163,64 +242,132 @@ Definition P167 : Z := 2 ^ 167.
 Lemma P167_val : P167 = 187072209578355573530071658587684226515959365500928. Proof. reflexivity. Qed.
 Lemma Hb_21 : Hb 21 = P167. Proof. reflexivity. Qed.
 
-Theorem safe_div_exact T x y : ty_ok T -> in_range T x -> in_range T y ->
-  leval (env2 x y) (m_safe_div T) = enc_out (arith_spec T ADiv x y).
+
+Lemma clamp_of_revert e er k s : leval e er = Revert -> leval e (m_clamp_of k s er) = Revert.
+Proof. intros H. unfold m_clamp_of. destruct s; cbn [leval]; rewrite !H; reflexivity. Qed.
+
+Definition lit_ok (t : lir) (v : Z) : Prop := forall l, is_lit t = Some l -> l = v.
+Lemma opd_lit_ok e t v : opd e t v -> lit_ok t v.
+Proof. intros H l E. exact (opd_islit _ _ _ _ H E). Qed.
+
+Lemma b2z_and_or_ne a b : w_or (w_iszero (b2z a)) (w_iszero (b2z b)) = b2z (negb (a && b)).
+Proof. destruct a, b; reflexivity. Qed.
+
+(* value of the int256 `not (x == MIN and y == -1)` guard of safe_div, for every literal-ness of the operands *)
+Lemma div_ok_eval T e ea eb x y :
+  leval e ea = Val (wrap x) -> leval e eb = Val (wrap y) -> lit_ok ea x -> lit_ok eb y ->
+  (nsigned T = true -> sword x) -> (nsigned T = true -> sword y) ->
+  exists c, leval e (m_div_ok T ea eb) = Val c /\
+            (c =? 0) = (nsigned T && (nbytes T =? 32) && ((x =? MINS) && (y =? -1))).
 Proof.
-  destruct T as [k s d]. intros [Hk Hd] Hx Hy. cbn [nbytes nsigned ndec] in Hk, Hd.
+  intros Ha Hb La Lb Sx Sy. unfold m_div_ok.
+  destruct (nsigned T); [|exists (wrap 1); split; reflexivity].
+  specialize (Sx eq_refl). specialize (Sy eq_refl).
+  destruct (nbytes T =? 32); [|exists (wrap 1); split; reflexivity].
+  cbn [andb].
+  assert (NX : leval e (L2 ONe ea m_min256) = Val (b2z (negb (x =? MINS)))).
+  { cbn [leval m_min256]. rewrite Ha. cbn [leval ev2]. rewrite min256_wrap, (w_eq_wrap x MINS Sx sword_MINS).
+    rewrite w_iszero_b2z. reflexivity. }
+  assert (NY : leval e (L2 ONe eb (L1 ONot (LInt 0))) = Val (b2z (negb (y =? -1)))).
+  { cbn [leval]. rewrite Hb. cbn [leval ev1 ev2]. rewrite w_not0, (w_eq_wrap y (-1) Sy sword_m1).
+    rewrite w_iszero_b2z. reflexivity. }
+  unfold lit_ok in La, Lb.
+  destruct (is_lit ea) as [v|] eqn:Ea; [specialize (La v eq_refl); subst v|];
+    (destruct (is_lit eb) as [u|] eqn:Eb; [specialize (Lb u eq_refl); subst u|]).
+  4: { eexists; split.
+       - cbn [leval m_min256]. cbn [leval m_min256] in NX, NY. rewrite Ha, Hb in *. cbn [leval ev1 ev2] in *.
+         injection NX as NX. injection NY as NY. rewrite NX, NY. cbn [leval ev2]. reflexivity.
+       - rewrite w_or_b2z, b2z_eq0. destruct (x =? MINS), (y =? -1); reflexivity. }
+  all: change (- 2 ^ 255) with MINS; destruct (x =? MINS) eqn:EX; destruct (y =? -1) eqn:EY;
+    eexists; (split; [first [exact NX | exact NY | reflexivity] | reflexivity]).
+Qed.
+
+Theorem safe_div_exact T e ea eb i1 x y : ty_ok T -> in_range T x -> in_range T y -> opd e ea x -> opd e eb y ->
+  leval e (m_safe_div T ea eb i1) = enc_out (arith_spec T ADiv x y).
+Proof.
+  destruct T as [k s d]. intros [Hk Hd] Hx Hy Oa Ob. cbn [nbytes nsigned ndec] in Hk, Hd.
   pose proof (in_range_fits k s d x Hk Hx) as Fx. pose proof (in_range_fits k s d y Hk Hy) as Fy.
   pose proof (range_bounds k s d x ltac:(lia) Hx) as Bx. pose proof (range_bounds k s d y ltac:(lia) Hy) as By.
   pose proof W_val; pose proof HALF_val; pose proof DIVISOR_val.
   assert (Wy : - W < y < W) by (destruct s; cbn in Fy; unfold sword, uword, MINS, MAXS in Fy; lia).
   unfold m_safe_div. cbn [nbytes nsigned ndec arith_spec].
-  cbn [leval]. rewrite nonzero_y_eval by exact Wy.
-  destruct (Z.eqb_spec y 0) as [->|N]; [destruct d; reflexivity|].
+  set (x' := if d then L2 OMul ea (LInt DIVISOR) else ea).
+  set (arg := L2 (m_DIV (Build_nty k s d)) x' (m_nonzero eb)).
+  pose proof (opd_here _ _ _ Oa) as Ha0. pose proof (opd_here _ _ _ Ob) as Hb0.
+  (* divisor zero: the division node itself reverts *)
+  destruct (Z.eqb_spec y 0) as [->|N].
+  { assert (Rv : leval e arg = Revert).
+    { unfold arg. cbn [leval]. rewrite (nonzero_eval _ _ 0) by (try lia; exact Hb0). reflexivity. }
+    unfold m_cache. destruct i1; [|cbn [leval]; rewrite Rv; reflexivity].
+    cbn [leval].
+    destruct (div_ok_eval (Build_nty k s d) e ea eb x 0) as [c [Hc _]];
+      try assumption; try (eapply opd_lit_ok; eassumption);
+      try (cbn [nsigned]; intros ->; cbn in Fx; try exact Fx; exact sword_0).
+    rewrite Hc. destruct (c =? 0); [reflexivity|].
+      unfold m_div_res. cbn [nbytes nsigned ndec].
+      repeat match goal with |- context [if ?b then _ else _] => destruct b end;
+        first [apply clamp_of_revert; exact Rv | exact Rv]. }
+  (* divisor non-zero *)
+  set (xv := if d then x * DIVISOR else x).
+  assert (Sxv : if s then sword xv else 0 <= xv < W).
+  { unfold xv. destruct d.
+    - destruct (Hd eq_refl) as [-> ->]. cbn in Fx. rewrite Hb_21 in *. pose proof P167_val.
+      unfold sword, MINS, MAXS. lia.
+    - destruct s; cbn in Fx; [exact Fx | exact Fx]. }
+  assert (Hx' : leval e x' = Val (wrap xv)).
+  { unfold x', xv. destruct d; [|exact Ha0]. cbn [leval]. rewrite Ha0. cbn [leval ev2]. f_equal. apply w_mul_wrap. }
+  set (q := Z.quot xv y).
+  assert (Harg : leval e arg = Val (wrap q)).
+  { unfold arg. cbn [leval]. rewrite (nonzero_eval _ _ y) by (try assumption).
+    replace (y =? 0) with false by (symmetry; apply Z.eqb_neq; exact N). rewrite Hx'.
+    destruct s; cbn [m_DIV nsigned ev2].
+    - f_equal. apply sdiv_val; [exact Sxv | exact Fy | exact N].
+    - cbn in Fy. unfold uword in Fy. rewrite (wrap_small xv), (wrap_small y) by lia.
+      rewrite udiv_val by lia. f_equal. symmetry. apply wrap_small.
+      pose proof (quot_abs_le xv y N). assert (0 <= Z.quot xv y) by (apply Z.quot_pos; lia). unfold q. lia. }
+  apply (cache_eval _ _ _ _ _ _ _ Harg). intros e' er Her He'.
+  pose proof (opd_at _ _ _ _ _ _ Oa tmpn_res He') as Ha. pose proof (opd_at _ _ _ _ _ _ Ob tmpn_res He') as Hb'.
+  cbn [leval].
+  destruct (div_ok_eval (Build_nty k s d) e' ea eb x y) as [c [Hc Hc0]];
+    try assumption; try (eapply opd_lit_ok; eassumption);
+    try (cbn [nsigned]; intros ->; cbn in Fx, Fy; assumption).
+  rewrite Hc, Hc0. cbn [nsigned nbytes].
+  replace (if d then chk (Build_nty k s d) (Z.quot (x * DIVISOR) y) else chk (Build_nty k s d) (Z.quot x y))
+    with (chk (Build_nty k s d) q) by (unfold q, xv; destruct d; reflexivity).
+  pose proof (quot_abs_le xv y N) as QA. fold q in QA.
+  unfold m_div_res. cbn [nbytes nsigned ndec].
   destruct d.
-  - (* decimal: k = 21, signed *)
-    destruct (Hd eq_refl) as [-> ->]. cbn in Fx, Fy. rewrite Hb_21 in *. pose proof P167_val.
-    lstep. unfold enc. rewrite w_mul_wrap.
-    assert (Sx : sword (x * DIVISOR)) by (unfold sword, MINS, MAXS; lia).
-    rewrite sdiv_val by assumption.
-    change (21 <? 32) with true. change (21 =? 32) with false. lstep.
-    change (wrap 1 =? 0) with false. cbv iota.
-    rewrite (clamp_var_eval _ _ 21 true true (wrap (Z.quot (x * DIVISOR) y)));
-      [| lia | cbn; reflexivity | apply wrap_range].
-    apply (chk_enc (Build_nty 21 true true)); [cbn; lia|]. cbn.
-    pose proof (quot_abs_le (x * DIVISOR) y N). unfold sword, MINS, MAXS. lia.
-  - destruct s.
-    + (* signed integer *)
-      cbn in Fx, Fy. lstep. unfold enc. rewrite sdiv_val by assumption.
+  - (* decimal *)
+    destruct (Hd eq_refl) as [-> ->]. change (21 =? 32) with false. cbn [andb]. change (21 <? 32) with true.
+    cbv iota. apply clamp_of_exact; [lia | exact Her |]. cbn. unfold sword, MINS, MAXS in *. lia.
+  - unfold xv in *. destruct s.
+    + cbn in Fx, Fy. cbn [andb].
       destruct (Z.eqb_spec k 32) as [->|N32].
       * (* int256 *)
-        change (32 <? 32) with false. lstep. unfold enc.
-        rewrite min256_val. unfold w_eq. rewrite !w_iszero_b2z, w_or_b2z, b2z_eq0.
-        change (wrap 0) with 0. change (w_not 0) with MAXU. rewrite <- wrap_m1.
-        rewrite Hb_32 in *.
+        change (32 <? 32) with false. cbn [andb]. rewrite Hb_32 in *.
         rewrite enc_out_chk. unfold in_rangeb. rewrite ty_lo_s, ty_hi_s, Hb_32.
-        destruct (Z.eq_dec x MINS) as [->|Nx]; [destruct (Z.eq_dec y (-1)) as [->|Ny]|].
-        -- vm_compute. reflexivity.
-        -- assert (Q : sword (Z.quot MINS y)) by (apply quot_sword; try assumption; tauto).
-           assert (wrap y <> wrap (-1)) by (intros C; apply Ny; apply wrap_inj_s; [assumption | unfold sword; wl | exact C]).
-           unfold sword, MINS, MAXS in Q. fold MINS in Q |- *. bsolve.
-        -- assert (Q : sword (Z.quot x y)) by (apply quot_sword; try assumption; tauto).
-           assert (wrap x <> HALF) by (rewrite <- wrap_MINS; intros C; apply Nx; apply wrap_inj_s; [assumption | unfold sword; wl | exact C]).
-           unfold sword, MINS, MAXS in Q. bsolve.
-      * assert (k <? 32 = true) as -> by lia. lstep.
-        change (wrap 1 =? 0) with false. cbv iota.
-        rewrite (clamp_var_eval _ _ k true false (wrap (Z.quot x y)));
-          [| lia | cbn; reflexivity | apply wrap_range].
-        apply (chk_enc (Build_nty k true false)); [cbn; lia|]. cbn.
-        pose proof (quot_abs_le x y N). range_facts k. unfold sword, MINS, MAXS. lia.
-    + (* unsigned integer: no clamp *)
-      cbn in Fx, Fy. unfold uword in Fx, Fy. lstep. unfold enc.
-      rewrite (wrap_small x), (wrap_small y) by lia. rewrite udiv_val by lia.
-      change (wrap 1 =? 0) with false. cbv iota.
-      pose proof (quot_abs_le x y N). assert (0 <= Z.quot x y) by (apply Z.quot_pos; lia).
-      rewrite enc_out_chk. unfold in_rangeb. rewrite ty_lo_u, ty_hi_u by lia.
-      rewrite wrap_small by lia. bsolve.
+        destruct ((x =? MINS) && (y =? -1)) eqn:S.
+        -- assert (x = MINS /\ y = -1) as [-> ->] by lia. vm_compute. reflexivity.
+        -- assert (Q : sword q) by (apply quot_sword; try assumption; lia).
+           unfold sword, MINS, MAXS in Q. rewrite Her. bsolve.
+      * assert (k <? 32 = true) as -> by lia. cbn [andb]. cbv iota.
+        range_facts k.
+        destruct (m_div_skip (Build_nty k true false) ea eb) eqn:SK; cbn [negb]; cbv iota.
+        -- (* clamp skipped: a literal operand excludes MIN / -1 *)
+           assert (NS : x <> - Hb k \/ y <> -1).
+           { unfold m_div_skip in SK. apply orb_true_iff in SK. destruct SK as [SK|SK].
+             - destruct (is_lit ea) as [v|] eqn:E1; [|discriminate SK].
+               pose proof (opd_islit _ _ _ _ Oa E1). subst v. rewrite ty_lo_s in SK. left. lia.
+             - destruct (is_lit eb) as [u|] eqn:E1; [|discriminate SK].
+               pose proof (opd_islit _ _ _ _ Ob E1). subst u. right. lia. }
+           pose proof (quot_bound (Hb k) x y ltac:(lia) Bx N NS) as QB. fold q in QB.
+           rewrite Her. rewrite enc_out_chk. unfold in_rangeb. rewrite ty_lo_s, ty_hi_s. bsolve.
+        -- apply clamp_of_exact; [lia | exact Her |]. cbn. unfold sword, MINS, MAXS. lia.
+    + (* unsigned: never clamped *)
+      cbn in Fx, Fy. unfold uword in Fx, Fy. cbn [andb]. cbv iota. rewrite Her.
+      assert (0 <= q) by (apply Z.quot_pos; lia).
+      rewrite enc_out_chk. unfold in_rangeb. rewrite ty_lo_u, ty_hi_u by lia. bsolve.
 Qed.
-
-Lemma in_range_sword T v : 1 <= nbytes T <= 32 -> nsigned T = true -> in_range T v -> sword v.
-Proof. destruct T as [k s d]. cbn. intros Hk -> H. exact (in_range_fits k true d v Hk H). Qed.
 
 Lemma not_sword_chk T v : 1 <= nbytes T <= 32 -> fits256 (nsigned T) v \/ chk T v = Revert.
 Proof.
@@ -228,100 +375,131 @@ Proof.
   apply in_rangeb_iff in E. destruct T as [k s d]. exact (in_range_fits k s d v Hk E).
 Qed.
 
-Theorem safe_mul_exact T x y : ty_ok T -> in_range T x -> in_range T y ->
-  leval (env2 x y) (m_safe_mul T) = enc_out (arith_spec T AMul x y).
+(* ---- safe_mul ---- *)
+Definition sp (x y : Z) : bool := (x =? MINS) && (y =? -1).
+Definition mul_A (T : nty) (x y : Z) : bool :=
+  if 16 <? nbytes T
+  then (if nsigned T then (swordb (x * y) || sp x y) || (y =? 0) else (x * y <? W) || (y =? 0))
+  else true.
+Definition mul_pass (T : nty) (x y : Z) : bool :=
+  mul_A T x y && (if nsigned T && (nbytes T =? 32) then negb (sp x y) else true).
+
+Lemma mul_ok_eval T e ea eb er x y :
+  leval e ea = Val (wrap x) -> leval e eb = Val (wrap y) -> leval e er = Val (wrap (x * y)) ->
+  lit_ok ea x -> lit_ok eb y -> fits256 (nsigned T) x -> fits256 (nsigned T) y ->
+  exists c, leval e (m_mul_ok T ea eb er) = Val c /\ (c =? 0) = negb (mul_pass T x y).
 Proof.
-  destruct T as [k s d]. intros [Hk Hd] Hx Hy. cbn [nbytes nsigned ndec] in Hk, Hd.
-  pose proof (in_range_fits k s d x Hk Hx) as Fx. pose proof (in_range_fits k s d y Hk Hy) as Fy.
+  intros Ha Hb Her La Lb Fx Fy. unfold m_mul_ok, mul_pass, mul_A.
+  set (ok0 := if 16 <? nbytes T then L2 OOr (L2 OEq (L2 (m_DIV T) er eb) ea) (L1 OIszero eb) else LInt 1).
+  set (A := if 16 <? nbytes T
+            then (if nsigned T then (swordb (x * y) || sp x y) || (y =? 0) else (x * y <? W) || (y =? 0))
+            else true).
+  assert (OK0 : leval e ok0 = Val (b2z A)).
+  { unfold ok0, A. destruct (16 <? nbytes T); [|reflexivity].
+    cbn [leval]. rewrite Hb, Her, Ha. cbn [leval ev1 ev2]. f_equal.
+    unfold m_DIV, sp. destruct (nsigned T); cbn [ev2 fits256] in *.
+    - apply smul_ok_val; assumption.
+    - unfold uword in *. rewrite (wrap_small x), (wrap_small y) by lia. apply umul_ok_val; assumption. }
+  destruct (nsigned T) eqn:SG; cbn [andb];
+    [|exists (b2z A); split; [exact OK0 | rewrite b2z_eq0, andb_true_r; reflexivity]].
+  destruct (nbytes T =? 32) eqn:K32;
+    [|exists (b2z A); split; [exact OK0 | rewrite b2z_eq0, andb_true_r; reflexivity]].
+  cbn [fits256] in Fx, Fy.
+  assert (NX : leval e (L2 ONe ea m_min256) = Val (b2z (negb (x =? MINS)))).
+  { cbn [leval m_min256]. rewrite Ha. cbn [leval ev2]. rewrite min256_wrap, (w_eq_wrap x MINS Fx sword_MINS).
+    rewrite w_iszero_b2z. reflexivity. }
+  assert (NY : leval e (L2 ONe (L1 ONot eb) (LInt 0)) = Val (b2z (negb (y =? -1)))).
+  { cbn [leval]. rewrite Hb. cbn [leval ev1 ev2]. rewrite (w_not_eq0 y Fy), w_iszero_b2z. reflexivity. }
+  assert (AND : forall t B, leval e t = Val (b2z B) -> leval e (L2 OAnd ok0 t) = Val (b2z (A && B))).
+  { intros t B Ht. cbn [leval]. rewrite Ht, OK0. cbn [ev2]. rewrite w_and_b2z. reflexivity. }
+  unfold lit_ok in La, Lb. unfold sp.
+  destruct (is_lit ea) as [v|] eqn:Ea; [specialize (La v eq_refl); subst v|];
+    (destruct (is_lit eb) as [u|] eqn:Eb; [specialize (Lb u eq_refl); subst u|]).
+  4: { eexists; split.
+       - apply AND. cbn [leval]. cbn [leval] in NX, NY. rewrite Ha, Hb in *. cbn [leval ev1 ev2 m_min256] in *.
+         injection NX as NX. injection NY as NY. rewrite NX, NY. rewrite w_or_b2z. reflexivity.
+       - rewrite b2z_eq0. destruct A, (x =? MINS), (y =? -1); reflexivity. }
+  all: change (- 2 ^ 255) with MINS; destruct (x =? MINS) eqn:EX; destruct (y =? -1) eqn:EY;
+    eexists; (split; [first [apply AND; first [exact NX | exact NY] | exact OK0]
+                     | rewrite b2z_eq0; destruct A; reflexivity]).
+Qed.
+
+Lemma mul_pass_fits T x y : ty_ok T -> in_range T x -> in_range T y ->
+  (mul_pass T x y = true <-> fits256 (nsigned T) (x * y)).
+Proof.
+  destruct T as [k s d]. intros [Hk _] Hx Hy. cbn [nbytes nsigned] in *.
   pose proof (range_bounds k s d x ltac:(lia) Hx) as Bx. pose proof (range_bounds k s d y ltac:(lia) Hy) as By.
+  pose proof W_val; pose proof HALF_val.
+  unfold mul_pass, mul_A, sp. cbn [nbytes nsigned].
+  destruct (Z.ltb_spec 16 k) as [L|L].
+  - destruct s; cbn [fits256 andb].
+    + rewrite <- swordb_iff.
+      assert (F1 : x = MINS -> y = -1 -> swordb (x * y) = false) by (intros -> ->; reflexivity).
+      assert (F2 : y = 0 -> swordb (x * y) = true) by (intros ->; rewrite Z.mul_0_r; reflexivity).
+      assert (F3 : k <> 32 -> x <> MINS) by (intros; range_facts k; unfold MINS; lia).
+      destruct (Z.eqb_spec k 32), (Z.eqb_spec x MINS), (Z.eqb_spec y (-1)), (Z.eqb_spec y 0), (swordb (x * y));
+        cbn [andb orb negb]; try lia; intuition (try congruence; try lia).
+    + rewrite andb_true_r. unfold uword. assert (0 <= x * y) by nia.
+      destruct (Z.eqb_spec y 0) as [->|]; [rewrite Z.mul_0_r, orb_true_r; split; [lia | reflexivity]|].
+      rewrite orb_false_r. lia.
+  - replace (k =? 32) with false by lia. rewrite andb_false_r. cbn [andb].
+    pose proof (Hb_le127 k L). pose proof P127_val. pose proof (Hb_pos k ltac:(lia)).
+    split; [intros _ | reflexivity].
+    destruct s; cbn [fits256]; unfold sword, uword, MINS, MAXS; nia.
+Qed.
+
+Theorem mul_core_exact T e ea eb i1 i2 x y : ty_ok T -> in_range T x -> in_range T y -> opd e ea x -> opd e eb y ->
+  leval e (m_mul_core T ea eb i1 i2) = enc_out (arith_spec T AMul x y).
+Proof.
+  intros OkT Hx Hy Oa Ob. pose proof (mul_pass_fits T x y OkT Hx Hy) as PF.
+  destruct T as [k s d]. destruct OkT as [Hk Hd]. cbn [nbytes nsigned ndec] in Hk, Hd, PF.
+  pose proof (in_range_fits k s d x Hk Hx) as Fx. pose proof (in_range_fits k s d y Hk Hy) as Fy.
   pose proof W_val; pose proof HALF_val; pose proof DIVISOR_val.
-  unfold m_safe_mul. cbn [nbytes nsigned ndec arith_spec].
-  destruct d.
-  - (* decimal *)
-    destruct (Hd eq_refl) as [-> ->]. cbn in Fx, Fy. rewrite Hb_21 in *. pose proof P167_val.
-    change (16 <? 21) with true. change (21 =? 32) with false. change (21 <? 32) with true.
-    lstep. unfold enc. rewrite w_mul_wrap. rewrite smul_ok_val by assumption. rewrite b2z_eq0.
-    assert (Nsp : (x =? MINS) && (y =? -1) = false) by (unfold MINS; lia). rewrite Nsp, orb_false_r.
-    destruct (Z.eqb_spec y 0) as [->|N].
-    + rewrite orb_true_r. cbn [negb]. cbv iota.
-      replace (x * 0) with 0 by lia. vm_compute. reflexivity.
-    + rewrite orb_false_r. destruct (swordb (x * y)) eqn:S; cbn [negb]; cbv iota.
-      * apply swordb_iff in S.
-        apply (int_clamp_eval _ _ 21 true true (Z.quot (x * y) DIVISOR)); [lia | |].
-        -- lstep. f_equal. apply sdiv_val; [assumption | unfold sword; wl | lia].
-        -- cbn. pose proof (quot_abs_le (x * y) DIVISOR ltac:(lia)). unfold sword, MINS, MAXS in *. lia.
-      * assert (~ sword (x * y)) by (rewrite <- swordb_iff; congruence).
-        rewrite enc_out_chk. unfold in_rangeb. rewrite ty_lo_s, ty_hi_s, Hb_21.
-        assert (~ (- P167 <= Z.quot (x * y) DIVISOR <= P167 - 1)).
-        { intros C. apply H3. unfold sword, MINS, MAXS. rewrite H2 in C. clear - C H0 H1 H2.
-          pose proof (Z.quot_rem' (x * y) DIVISOR). pose proof (Z.rem_bound_abs (x * y) DIVISOR ltac:(lia)). lia. }
-        bsolve.
-  - destruct (Z.ltb_spec 16 k) as [L|L]; [destruct (Z.eqb_spec k 32) as [->|N32]|].
-    + (* 256 bits *)
-      change (32 <? 32) with false. rewrite Hb_32 in *.
-      destruct s; cbn [andb]; lstep; unfold enc; rewrite w_mul_wrap.
-      * cbn in Fx, Fy. rewrite min256_val. rewrite smul_ok_val by assumption.
-        unfold w_eq. rewrite !w_iszero_b2z, w_or_b2z, w_and_b2z, b2z_eq0.
-        change (wrap 0) with 0.
-        rewrite (wrap_eq_MINS x Fx). rewrite (wrap_eq_m1 y Fy).
-        rewrite enc_out_chk. unfold in_rangeb. rewrite ty_lo_s, ty_hi_s, Hb_32.
-        fold MINS. fold MAXS. fold (swordb (x * y)).
-        destruct (Z.eqb_spec y 0) as [->|N].
-        -- replace (x * 0) with 0 by lia. rewrite !orb_true_r. destruct (x =? MINS); reflexivity.
-        -- rewrite !orb_false_r.
-           destruct (swordb (x * y)) eqn:S.
-           ++ assert (Nsp : (x =? MINS) && (y =? -1) = false).
-              { apply swordb_iff in S. unfold sword, MINS, MAXS in S. unfold MINS. bsolve. }
-              rewrite Nsp. cbn [orb]. destruct (x =? MINS), (y =? -1); try discriminate; reflexivity.
-           ++ cbn [orb]. destruct (x =? MINS), (y =? -1); reflexivity.
-      * cbn in Fx, Fy. unfold uword in Fx, Fy.
-        rewrite (wrap_small x), (wrap_small y) by lia. rewrite umul_ok_val by assumption.
-        rewrite b2z_eq0.
-        rewrite enc_out_chk. unfold in_rangeb. rewrite ty_lo_u, ty_hi_u, Hb_32 by lia.
-        destruct (Z.eqb_spec y 0) as [->|N].
-        -- replace (x * 0) with 0 by lia. reflexivity.
-        -- rewrite orb_false_r. assert (0 <= x * y) by nia.
-           destruct (Z.ltb_spec (x * y) W); cbn [negb]; cbv iota; bsolve.
-    + (* 128 < bits < 256 *)
-      assert (k <? 32 = true) as -> by lia. rewrite andb_false_r.
-      range_facts k.
-      destruct s; lstep; unfold enc; rewrite w_mul_wrap.
-      * cbn in Fx, Fy. rewrite smul_ok_val by assumption.
-        assert (Nsp : (x =? MINS) && (y =? -1) = false) by (unfold MINS; lia). rewrite Nsp, orb_false_r.
-        rewrite b2z_eq0.
-        destruct (Z.eqb_spec y 0) as [->|N].
-        -- rewrite orb_true_r. cbn [negb]. cbv iota. replace (x * 0) with 0 by lia.
-           rewrite (clamp_var_eval _ _ k true false (wrap 0)); [| lia | cbn; reflexivity | apply wrap_range].
-           apply (chk_enc (Build_nty k true false)); [cbn; lia | cbn; unfold sword; wl].
-        -- rewrite orb_false_r. destruct (swordb (x * y)) eqn:S; cbn [negb]; cbv iota.
-           ++ apply swordb_iff in S.
-              rewrite (clamp_var_eval _ _ k true false (wrap (x * y))); [| lia | cbn; reflexivity | apply wrap_range].
-              apply (chk_enc (Build_nty k true false)); [cbn; lia | exact S].
-           ++ destruct (not_sword_chk (Build_nty k true false) (x * y) ltac:(cbn; lia)) as [F|F].
-              ** cbn in F. apply swordb_iff in F. congruence.
-              ** rewrite F. reflexivity.
-      * cbn in Fx, Fy. unfold uword in Fx, Fy.
-        rewrite (wrap_small x), (wrap_small y) by lia. rewrite umul_ok_val by assumption.
-        rewrite b2z_eq0.
-        destruct (Z.eqb_spec y 0) as [->|N].
-        -- rewrite orb_true_r. cbn [negb]. cbv iota. replace (x * 0) with 0 by lia.
-           rewrite (clamp_var_eval _ _ k false false (wrap 0)); [| lia | cbn; reflexivity | apply wrap_range].
-           apply (chk_enc (Build_nty k false false)); [cbn; lia | cbn; unfold uword; wl].
-        -- rewrite orb_false_r. assert (0 <= x * y) by nia.
-           destruct (Z.ltb_spec (x * y) W); cbn [negb]; cbv iota.
-           ++ rewrite (clamp_var_eval _ _ k false false (wrap (x * y))); [| lia | cbn; reflexivity | apply wrap_range].
-              apply (chk_enc (Build_nty k false false)); [cbn; lia | cbn; unfold uword; lia].
-           ++ destruct (not_sword_chk (Build_nty k false false) (x * y) ltac:(cbn; lia)) as [F|F].
-              ** cbn in F. unfold uword in F. lia.
-              ** rewrite F. reflexivity.
-    + (* bits <= 128: the product cannot overflow 256 bits *)
-      assert (k <? 32 = true) as -> by lia. assert (k =? 32 = false) as -> by lia. rewrite andb_false_r.
-      lstep. unfold enc. rewrite w_mul_wrap.
-      change (wrap 1 =? 0) with false. cbv iota.
-      rewrite (clamp_var_eval _ _ k s false (wrap (x * y))); [| lia | cbn; reflexivity | apply wrap_range].
-      apply (chk_enc (Build_nty k s false)); [cbn; lia |]. cbn [nsigned].
-      pose proof (Hb_le127 k L). pose proof P127_val. pose proof (Hb_pos k ltac:(lia)).
-      destruct s; cbn [fits256]; unfold sword, uword, MINS, MAXS; nia.
+  assert (Harg : leval e (L2 OMul ea eb) = Val (wrap (x * y))).
+  { rewrite (l2_eval _ _ _ _ _ _ (opd_here _ _ _ Oa) (opd_here _ _ _ Ob)). cbn [ev2]. f_equal. apply w_mul_wrap. }
+  unfold m_mul_core. apply (cache_eval _ _ _ _ _ _ _ Harg). intros e' er Her He'.
+  pose proof (opd_at _ _ _ _ _ _ Oa tmpn_ans He') as Ha. pose proof (opd_at _ _ _ _ _ _ Ob tmpn_ans He') as Hb'.
+  cbn [leval].
+  destruct (mul_ok_eval (Build_nty k s d) e' ea eb er x y) as [c [Hc Hc0]];
+    try assumption; try (eapply opd_lit_ok; eassumption).
+  rewrite Hc, Hc0. cbn [arith_spec ndec].
+  destruct (mul_pass (Build_nty k s d) x y) eqn:P; cbn [negb]; cbv iota.
+  - (* the checks pass: the product did not overflow 256 bits *)
+    assert (F : fits256 s (x * y)) by (apply PF; reflexivity).
+    unfold m_mul_res. cbn [nbytes nsigned ndec].
+    destruct d.
+    + destruct (Hd eq_refl) as [-> ->]. change (21 <? 32) with true. cbv iota. cbn [fits256] in F.
+      apply (int_clamp_eval _ _ 21 true true (Z.quot (x * y) DIVISOR)); [lia | |].
+      * cbn [leval]. rewrite Her. cbn [leval ev2 m_DIV nsigned]. f_equal.
+        apply sdiv_val; [exact F | unfold sword; wl | lia].
+      * cbn. pose proof (quot_abs_le (x * y) DIVISOR ltac:(lia)). unfold sword, MINS, MAXS in *. lia.
+    + destruct (Z.ltb_spec k 32).
+      * apply clamp_of_exact; [lia | exact Her | exact F].
+      * assert (k = 32) by lia. subst k. rewrite Her.
+        rewrite enc_out_chk. replace (in_rangeb _ _) with true; [reflexivity|].
+        symmetry. apply in_rangeb_iff. unfold in_range.
+        destruct s; cbn [fits256] in F; [rewrite ty_lo_s, ty_hi_s, Hb_32 | rewrite ty_lo_u, ty_hi_u, Hb_32 by lia];
+          unfold sword, uword, MINS, MAXS in F; lia.
+  - (* a check fails: the product does not fit in 256 bits, a fortiori not in T *)
+    assert (NF : ~ fits256 s (x * y)) by (intros F; apply PF in F; congruence).
+    destruct d.
+    + destruct (Hd eq_refl) as [-> ->]. cbn [fits256] in NF.
+      rewrite enc_out_chk. unfold in_rangeb. rewrite ty_lo_s, ty_hi_s, Hb_21. pose proof P167_val.
+      assert (~ (- P167 <= Z.quot (x * y) DIVISOR <= P167 - 1)).
+      { intros C. apply NF. unfold sword, MINS, MAXS.
+        pose proof (Z.quot_rem' (x * y) DIVISOR). pose proof (Z.rem_bound_abs (x * y) DIVISOR ltac:(lia)). lia. }
+      bsolve.
+    + destruct (not_sword_chk (Build_nty k s false) (x * y) ltac:(cbn; lia)) as [F|F]; [contradiction|].
+      rewrite F. reflexivity.
+Qed.
+
+Theorem safe_mul_exact T e ea eb i1 i2 x y : ty_ok T -> in_range T x -> in_range T y -> opd e ea x -> opd e eb y ->
+  leval e (m_safe_mul T ea eb i1 i2) = enc_out (arith_spec T AMul x y).
+Proof.
+  intros OkT Hx Hy Oa Ob. unfold m_safe_mul. destruct (is_lit ea).
+  - rewrite (mul_core_exact T e eb ea i1 i2 y x) by assumption.
+    unfold arith_spec. rewrite (Z.mul_comm y x). reflexivity.
+  - apply mul_core_exact; assumption.
 Qed.
 
 (* core.clamp_basetype on a word held in variable x: passes (returning the word unchanged) iff the word is
